@@ -2290,18 +2290,22 @@ func (x *actorSystem) handleRemoteAsk(ctx context.Context, to *PID, message any,
 	receiveContext := toReceiveContext(ctx, from, to, message, false)
 
 	responseCh := receiveContext.response
+	verifhook.At("ask.enq", receiveContext, 0, 0)
 	to.doReceive(receiveContext)
 	timer := timers.Get(timeout)
+	verifhook.At("ask.select", receiveContext, 0, 0)
 
 	// await patiently to receive the response from the actor
 	// or wait for the context to be done
 	select {
 	case response = <-responseCh:
+		verifhook.At("ask.woke", receiveContext, 1, 0)
 		timers.Put(timer)
 		receiveContext.responseClosed.Store(true)
 		putResponseChannel(responseCh)
 		return
 	case <-ctx.Done():
+		verifhook.At("ask.woke", receiveContext, 2, 0)
 		err = errors.Join(ctx.Err(), gerrors.ErrRequestTimeout)
 		to.handleReceivedErrorWithMessage(noSender, message, err)
 		timers.Put(timer)
@@ -2309,6 +2313,7 @@ func (x *actorSystem) handleRemoteAsk(ctx context.Context, to *PID, message any,
 		putResponseChannel(responseCh)
 		return nil, err
 	case <-timer.C:
+		verifhook.At("ask.woke", receiveContext, 3, 0)
 		err = gerrors.ErrRequestTimeout
 		to.handleReceivedErrorWithMessage(noSender, message, err)
 		timers.Put(timer)
